@@ -346,6 +346,10 @@ func concreteReplay(dir string, o *Obligation, progs map[string]*Program) (bool,
 						val = b
 					}
 				}
+				if k, ok := basicKind(v.Elem); ok && k.bits > 0 && !k.signed {
+					// memory the contract says nothing about may get any integer in the model
+					val = new(big.Int).Mod(val, pow2(uint(k.bits)))
+				}
 				elems = append(elems, val.String())
 			}
 			fmt.Fprintf(&sb, "\t%s_backing := []%s{%s}\n", p.name, ets, strings.Join(elems, ", "))
